@@ -211,6 +211,11 @@ struct Ctx
   FILE * out = nullptr;
   volatile uint64_t * state = nullptr;   // [0]=current case index+1, [1]=cases completed
   uint64_t cur = 0;
+  // cases run with the CALLER's rounding direction set to upward / downward / toward zero: every
+  // "to rounding" tolerance is widened by tol_scale there (directed rounding doubles the unit
+  // roundoff and lets errors accumulate linearly), and the ratios are kept under their own names
+  int caller_rounding = FE_TONEAREST;
+  long double tol_scale = 1.0L;
 
   std::map<std::string, uint64_t> cats;
   std::map<std::string, uint64_t> counters;
@@ -248,6 +253,9 @@ struct Ctx
       if (i) {p += ",";}
       p += jstr(params[i].first) + ":" + jnum(params[i].second);
     }
+    if (caller_rounding != FE_TONEAREST) {
+      p += std::string(params.empty() ? "" : ",") + "\"caller_rounding_mode\":" + jnum(caller_rounding);
+    }
     p += "}";
     fprintf(
       out, "{\"t\":\"viol\",\"kind\":%s,\"case\":%" PRIu64 ",\"params\":%s,\"witness\":%s}\n",
@@ -264,8 +272,9 @@ struct Ctx
     const char * oracle, long double observed, long double tol, const char * kind,
     const std::function<Params()> & params, const std::function<std::string()> & witness)
   {
-    auto & st = margins[oracle];
+    auto & st = caller_rounding == FE_TONEAREST ? margins[oracle] : margins[std::string(oracle) + "@directed_rounding"];
     ++st.n;
+    tol *= tol_scale;
     long double ratio = (tol > 0) ? observed / tol : (observed == 0 ? 0.0L : INFINITY);
     bool ok = std::isfinite(static_cast<double>(observed)) && observed <= tol;
     if (ok) {
@@ -281,7 +290,7 @@ struct Ctx
     const char * oracle, bool cond, const char * kind,
     const std::function<Params()> & params, const std::function<std::string()> & witness)
   {
-    auto & st = margins[oracle];
+    auto & st = caller_rounding == FE_TONEAREST ? margins[oracle] : margins[std::string(oracle) + "@directed_rounding"];
     ++st.n;
     if (cond) {return true;}
     J w;
@@ -323,6 +332,7 @@ inline int run(
   std::string outpath, statepath;
   int64_t cases = -1;
   double fraction = 1.0;
+  bool directed_rounding_cases = true;
   if (const char * e = getenv("VERIF_SEED")) {c.seed = strtoull(e, nullptr, 10);}
   for (int i = 1; i < argc; ++i) {
     std::string a = argv[i];
@@ -335,7 +345,7 @@ inline int run(
       c.start = strtoull(val().c_str(), nullptr, 10);
     } else if (a == "--cases") {cases = strtoll(val().c_str(), nullptr, 10);} else if (a == "--fraction") {
       fraction = strtod(val().c_str(), nullptr);
-    } else if (a == "--out") {
+    } else if (a == "--no-directed-rounding") {directed_rounding_cases = false;} else if (a == "--out") {
       outpath = val();
     } else if (a == "--state") {statepath = val();} else if (a == "--verbose") {c.verbose = true;} else {
       fprintf(stderr, "unknown argument %s\n", a.c_str()); return 2;
@@ -406,7 +416,26 @@ inline int run(
     static const int FLAG_SETS[4] = {0, FE_DIVBYZERO, FE_INVALID | FE_OVERFLOW, FE_ALL_EXCEPT};
     feclearexcept(FE_ALL_EXCEPT);
     if (FLAG_SETS[(idx / 12) % 4]) {feraiseexcept(FLAG_SETS[(idx / 12) % 4]);}
+    // one case in 16 runs with the caller's rounding direction set to a directed mode (interval
+    // arithmetic, exact predicates and some DSP code leave it like that): the library is not
+    // entitled to assume round-to-nearest around rint/nearbyint/lrint or in its constructors
+    static const int DIRECTED[3] = {FE_UPWARD, FE_DOWNWARD, FE_TOWARDZERO};
+    static const char * DIRECTED_NAME[3] = {"caller_rounding_upward", "caller_rounding_downward", "caller_rounding_toward_zero"};
+    const bool directed = directed_rounding_cases && idx % 16 == 5;
+    if (directed) {
+      c.caller_rounding = DIRECTED[(idx / 16) % 3]; c.tol_scale = 8.0L; c.cat(DIRECTED_NAME[(idx / 16) % 3]);
+      fesetround(c.caller_rounding);
+    }
     one_case(c, idx);
+    if (directed) {
+      const int after = fegetround();
+      fesetround(state0.rounding);
+      if (after != c.caller_rounding) {
+        c.violation("process_state_changed", Params{{"rounding_mode", (double)after}},
+          J().s("what", "the caller's rounding direction was not preserved").f("set_by_caller", c.caller_rounding).f("found_afterwards", after).str());
+      }
+      c.caller_rounding = FE_TONEAREST; c.tol_scale = 1.0L;
+    }
     if (!(ProcessState::now() == state0)) {
       const ProcessState n = ProcessState::now();
       c.violation("process_state_changed", Params{{"rounding_mode", (double)n.rounding}, {"mxcsr_mode_bits", (double)n.mxcsr_mode}},
